@@ -1,6 +1,8 @@
 #include "ops.h"
 
+#include <pthread.h>
 #include <valgrind/memcheck.h>
+#include <xmmintrin.h>
 
 #include "oracle.h"
 
@@ -163,6 +165,12 @@ static void fill_buf(rng_t* r, const bufspec_t* b, void* p, size_t bytes) {
     default:
       break;
   }
+  if (b->zero_block) {
+    uint64_t* w = p;
+    const size_t nw = bytes / 8;
+    for (size_t blk = 0; (blk + 1) * b->zero_block <= nw; blk++)
+      if ((rng_u64(r) & 3) == 0) memset(w + blk * b->zero_block, 0, b->zero_block * 8);
+  }
 }
 
 void op_exec(const opdef_t* o, const env_t* env, uint64_t seed, int prefill, unsigned mis, unsigned monitors, opres_t* res) {
@@ -243,7 +251,16 @@ void op_exec(const opdef_t* o, const env_t* env, uint64_t seed, int prefill, uns
       }
     }
   }
+  const unsigned csr0 = _mm_getcsr();
+  unsigned short cw0, cw1;
+  __asm__ volatile("fnstcw %0" : "=m"(cw0));
   o->call(&pl, p, env);
+  __asm__ volatile("fnstcw %0" : "=m"(cw1));
+  if ((_mm_getcsr() & ~0x3Fu) != (csr0 & ~0x3Fu) || cw0 != cw1) {  // (the sticky exception flags are not state the results depend on)
+    res->fpenv_changed = 1;
+    if (!res->msg[0]) snprintf(res->msg, sizeof res->msg, "floating-point environment changed by the call: MXCSR %#x -> %#x, x87 CW %#x -> %#x", csr0, _mm_getcsr(), cw0, cw1);
+    _mm_setcsr(csr0);
+  }
   if (monitors & MON_CAPTURE) {
     for (int pass = 0; pass < 2; pass++) {
       size_t off = 0;
@@ -551,7 +568,7 @@ static void vmp_shape(opplan_t* pl, rng_t* r) {
 static void plan_vmp_prepare(opplan_t* pl, rng_t* r, const env_t* e) {
   vmp_shape(pl, r);
   B_RAW(pl, R_OUT, F_NONE, 0, bytes_of_vmp_pmat(e->fft64, pl->u[0], pl->u[1]), 8);
-  B_RAW(pl, R_IN, F_I64, 16, pl->u[0] * pl->u[1] * e->N * 8, 8);
+  { int mi = B_RAW(pl, R_IN, F_I64, 16, pl->u[0] * pl->u[1] * e->N * 8, 8); pl->b[mi].zero_block = e->N; }  // some matrix entries are the zero polynomial
   B_RAW(pl, R_SCRATCH, F_NONE, 0, vmp_prepare_contiguous_tmp_bytes(e->fft64, pl->u[0], pl->u[1]), 8);
   SHAPE(pl, "-");
 }
@@ -560,7 +577,7 @@ static void plan_vmp_apply(opplan_t* pl, rng_t* r, const env_t* e) {
   vmp_shape(pl, r);
   B_RAW(pl, R_OUT, F_NONE, 0, bytes_of_vec_znx_dft(e->fft64, pl->u[3]), 8);
   B_RAW(pl, R_OUT, F_NONE, 0, bytes_of_vmp_pmat(e->fft64, pl->u[0], pl->u[1]), 8);
-  B_RAW(pl, R_IN, F_I64, 16, pl->u[0] * pl->u[1] * e->N * 8, 8);
+  { int mi = B_RAW(pl, R_IN, F_I64, 16, pl->u[0] * pl->u[1] * e->N * 8, 8); pl->b[mi].zero_block = e->N; }  // some matrix entries are the zero polynomial
   B_RAW(pl, R_SCRATCH, F_NONE, 0, vmp_prepare_contiguous_tmp_bytes(e->fft64, pl->u[0], pl->u[1]), 8);
   B_ZV(pl, R_IN, F_I64, 16, e->N, pl->u[2], e->N + (rng_u64(r) & 3));
   B_RAW(pl, R_SCRATCH, F_NONE, 0, vmp_apply_dft_tmp_bytes(e->fft64, pl->u[3], pl->u[2], pl->u[0], pl->u[1]), 8);
@@ -573,7 +590,7 @@ static void plan_vmp_apply_dft_to_dft(opplan_t* pl, rng_t* r, const env_t* e) {
   vmp_shape(pl, r);
   B_RAW(pl, R_OUT, F_NONE, 0, bytes_of_vec_znx_dft(e->fft64, pl->u[3]), 8);
   B_RAW(pl, R_OUT, F_NONE, 0, bytes_of_vmp_pmat(e->fft64, pl->u[0], pl->u[1]), 8);
-  B_RAW(pl, R_IN, F_I64, 16, pl->u[0] * pl->u[1] * e->N * 8, 8);
+  { int mi = B_RAW(pl, R_IN, F_I64, 16, pl->u[0] * pl->u[1] * e->N * 8, 8); pl->b[mi].zero_block = e->N; }  // some matrix entries are the zero polynomial
   B_RAW(pl, R_SCRATCH, F_NONE, 0, vmp_prepare_contiguous_tmp_bytes(e->fft64, pl->u[0], pl->u[1]), 8);
   B_RAW(pl, R_IN, F_DBLINT, 30, bytes_of_vec_znx_dft(e->fft64, pl->u[2]), 8);
   B_RAW(pl, R_SCRATCH, F_NONE, 0, vmp_apply_dft_to_dft_tmp_bytes(e->fft64, pl->u[3], pl->u[2], pl->u[0], pl->u[1]), 8);
@@ -1171,4 +1188,59 @@ uint64_t env_hash(const env_t* e, uint64_t* bytes) {
 
 void vp_list_ops(void) {
   for (int i = 0; i < N_CAT_OPS; i++) printf("%s\t%u\t%s\n", OPS[i].name, OPS[i].flags, OPS[i].twin ? OPS[i].twin : "-");
+}
+
+typedef struct {
+  const opdef_t* o;
+  const env_t* e;
+  uint64_t seed;
+  int iters;
+  uint64_t* hashes;
+  pthread_barrier_t* bar;
+} occ_t;
+static void* occ_worker(void* arg) {
+  occ_t* t = arg;
+  pthread_barrier_wait(t->bar);
+  for (int i = 0; i < t->iters; i++) {
+    opres_t r;
+    op_exec(t->o, t->e, t->seed + (uint64_t)i, i & 3, (unsigned)i, 0, &r);
+    t->hashes[i] = r.skipped ? 0 : r.out_hash;
+  }
+  return 0;
+}
+uint64_t ops_concurrent_check(const char* const* names, int nnames, const env_t* env, int T, int iters, uint64_t seed, char* msg, size_t msglen, uint64_t* calls) {
+  uint64_t bad = 0;
+  if (T > 16) T = 16;
+  for (int k = 0; k < nnames; k++) {
+    int oi = op_find(names[k]);
+    if (oi < 0) harness_fail("ops_concurrent_check: unknown entry %s", names[k]);
+    occ_t th[16];
+    pthread_t tid[16];
+    pthread_barrier_t bar;
+    pthread_barrier_init(&bar, 0, (unsigned)T);
+    for (int t = 0; t < T; t++) {
+      th[t].o = &OPS[oi];
+      th[t].e = env;
+      th[t].seed = mix64(seed + (uint64_t)t * 1000003 + (uint64_t)k);
+      th[t].iters = iters;
+      th[t].hashes = calloc((size_t)iters, 8);
+      th[t].bar = &bar;
+      pthread_create(&tid[t], 0, occ_worker, &th[t]);
+    }
+    for (int t = 0; t < T; t++) pthread_join(tid[t], 0);
+    pthread_barrier_destroy(&bar);
+    for (int t = 0; t < T; t++) {
+      for (int i = 0; i < iters; i++) {
+        opres_t r;
+        op_exec(&OPS[oi], env, th[t].seed + (uint64_t)i, (i + 1) & 3, (unsigned)i + 2, 0, &r);
+        if (calls) (*calls)++;
+        if (!r.skipped && r.out_hash != th[t].hashes[i]) {
+          if (!bad && msg) snprintf(msg, msglen, "%s: result under %d concurrent threads differs from the same call run alone (N=%" PRIu64 ")", names[k], T, env->N);
+          bad++;
+        }
+      }
+      free(th[t].hashes);
+    }
+  }
+  return bad;
 }
